@@ -779,10 +779,55 @@ func (g *gen) argsFor(pc int, name string) []interface{} {
 		if g.happy {
 			return []interface{}{"unibi:uusd"}
 		}
-		return []interface{}{g.pick("unibi:uusd", "unibi:uusd", "unibi:uusd", "ubtc:uusd", "", "unibi", "a:b", "unibi:uusd:x", ":uusd", "unibi:", "ünibi:uusd",
-			strings.Repeat("p", 300), "unibi:"+strings.Repeat("q", 128), "UNIBI:UUSD", "unibi;uusd", "1ab:uusd")}
+		return []interface{}{g.pairStr()}
 	}
 	return nil
+}
+
+// pairStr: the Oracle's pair argument ranges over arbitrary bytes: well-formed pairs, the historic bad shapes, and
+// mutations of a well-formed pair - one or more bytes (NUL, 0xff, unicode, space, separators …) inserted at any
+// position, garbage behind a valid prefix, truncation, separators missing / duplicated, over-long sides
+func (g *gen) pairStr() string {
+	fixed := []string{"unibi:uusd", "unibi:uusd", "ubtc:uusd", "", "unibi", "a:b", "unibi:uusd:x", ":uusd", "unibi:", "ünibi:uusd",
+		strings.Repeat("p", 300), "unibi:" + strings.Repeat("q", 128), "UNIBI:UUSD", "unibi;uusd", "1ab:uusd"}
+	if g.r.Chance(30, 100) {
+		return fixed[g.r.Intn(len(fixed))]
+	}
+	s := g.pick("unibi:uusd", "unibi:uusd", "ubtc:uusd", "ab:cd", "abc:xyz", "u/n.i_b-i:uusd", "unibi:"+strings.Repeat("q", 127))
+	bad := []string{"\x00", "\x00", "\x00", "\xff", "\xfe\xff", "ü", " ", "\n", "\t", ":", "::", "!", ";", "\x00\x00", "\x7f", "日本"}
+	n := g.r.Pick(60, 25, 15) + 1
+	for k := 0; k < n; k++ {
+		switch g.r.Pick(34, 22, 10, 10, 8, 8, 8) {
+		case 0: // insert anywhere
+			i := g.r.Intn(len(s) + 1)
+			s = s[:i] + bad[g.r.Intn(len(bad))] + s[i:]
+		case 1: // garbage behind a valid prefix
+			s += bad[g.r.Intn(len(bad))]
+			if g.r.Chance(1, 2) {
+				s += string(g.randBytes(g.r.Range(1, 12)))
+			}
+		case 2: // garbage in front
+			s = bad[g.r.Intn(len(bad))] + s
+		case 3: // replace one byte
+			if len(s) > 0 {
+				i := g.r.Intn(len(s))
+				s = s[:i] + bad[g.r.Intn(len(bad))] + s[i+1:]
+			}
+		case 4: // truncate
+			if len(s) > 0 {
+				s = s[:g.r.Intn(len(s))]
+			}
+		case 5: // separator missing / duplicated
+			if g.r.Chance(1, 2) {
+				s = strings.Replace(s, ":", "", 1)
+			} else {
+				s = strings.Replace(s, ":", g.pick("::", ":x:", ": :"), 1)
+			}
+		default: // over-long
+			s += strings.Repeat(g.pick("z", "z", "\x00", "9"), g.r.Range(100, 400))
+		}
+	}
+	return s
 }
 
 func sortedMethods(abi *gethabi.ABI) []string {
@@ -1322,6 +1367,18 @@ func (w *world) openers() []c08In {
 		mkIn(2, "call", "0", qReq+1000, q, "opener/oracle-gas-inside-body"),
 		mkIn(2, "top", "1000000000000", 1_000_000, q, "opener/oracle-query-with-value"),
 		mkIn(2, "top", "0", 1_000_000, q, "opener/oracle-ok"),
+		// pair strings with a NUL / garbage behind, inside and in front of a well-formed pair (both Oracle methods)
+		mkIn(2, "top", "0", 1_000_000, pack(oABI, "queryExchangeRate", "unibi:uusd\x00"), "opener/oracle-pair-nul-suffix"),
+		mkIn(2, "call", "0", 1_000_000, pack(oABI, "queryExchangeRate", "unibi:uusd\x00"), "opener/oracle-pair-nul-suffix"),
+		mkIn(2, "static", "0", 1_000_000, pack(oABI, "chainLinkLatestRoundData", "unibi:uusd\x00"), "opener/oracle-pair-nul-suffix"),
+		mkIn(2, "nested", "0", 1_000_000, pack(oABI, "queryExchangeRate", "unibi:uusd\x00"), "opener/oracle-pair-nul-suffix"),
+		mkIn(2, "delegate", "0", 1_000_000, pack(oABI, "chainLinkLatestRoundData", "ubtc:uusd\x00\x00"), "opener/oracle-pair-nul-suffix"),
+		mkIn(2, "top", "0", 1_000_000, pack(oABI, "chainLinkLatestRoundData", "un\x00ibi:uusd"), "opener/oracle-pair-nul-inside"),
+		mkIn(2, "static", "0", 1_000_000, pack(oABI, "queryExchangeRate", "unibi:uu\x00sd"), "opener/oracle-pair-nul-inside"),
+		mkIn(2, "call", "0", 1_000_000, pack(oABI, "queryExchangeRate", "ab:cd\x00"), "opener/oracle-pair-nul-short-sides"),
+		mkIn(2, "top", "0", 1_000_000, pack(oABI, "queryExchangeRate", "\x00unibi:uusd"), "opener/oracle-pair-nul-prefix"),
+		mkIn(2, "top", "0", 1_000_000, pack(oABI, "queryExchangeRate", "unibi:uusd!\xff"), "opener/oracle-pair-garbage-suffix"),
+		mkIn(2, "static", "0", 1_000_000, pack(oABI, "queryExchangeRate", "unibi:uusd"+strings.Repeat("z", 300)+"\x00"), "opener/oracle-pair-long-nul"),
 		// address strings that are VALID bech32 with unusual payload lengths (1..255 bytes are accepted by the SDK)
 		mkIn(0, "top", "0", 1_000_000, pack(ftABI, "whoAmI", bech32Of(3, 0xab)), "opener/bech32-len3-whoAmI"),
 		mkIn(0, "call", "0", 1_000_000, pack(ftABI, "whoAmI", bech32Of(1, 7)), "opener/bech32-len1-whoAmI"),
